@@ -231,6 +231,10 @@ def validate_shard(module, lines, tag):
 
 
 def validate(module, trace_path, shards=None, group_key="case"):
+    return _validate(module, trace_path, shards, group_key)
+
+
+def _validate(module, trace_path, shards=None, group_key="case"):
     """sharded trace validation; events of one case stay in one shard"""
     lines = open(trace_path).readlines()
     if not lines:
